@@ -216,7 +216,7 @@ def gen_layout(r, nops):
     def newlabel():
         lab_n[0] += 1
         if r.random() < 0.3:
-            return str(lab_n[0] * 10)
+            return str((lab_n[0] - 1) * 10)        # line numbers 0, 10, 20 ... (0 is a line number like any other)
         return f'zl{lab_n[0]}'
     for i in range(nd):
         for _ in range(r.choice([0, 0, 1, 1, 2])):
